@@ -80,6 +80,7 @@ def run_property(pid: str, level: str, tier: str, jobs: list, meta: dict) -> int
     unbounded_obs = 0
     seen_known = set()
     declined_reasons = []
+    stats_sum = {}
 
     for job, res in zip(jobs, results):
         funcs.update(res.get("funcs", []))
@@ -129,6 +130,9 @@ def run_property(pid: str, level: str, tier: str, jobs: list, meta: dict) -> int
             solver_s += o.get("solver_s", 0.0)
             if o.get("unbounded"):
                 unbounded_obs += 1
+            for k, v in (o.get("stats") or {}).items():
+                if isinstance(v, (int, float)):
+                    stats_sum[k] = stats_sum.get(k, 0) + v
             if len(samples) < 12 and o.get("status") == "confirmed":
                 samples.append({"obligation": o["describe"], "verdict": "confirmed over all paths",
                                 "paths": o.get("paths"), "reached_final_comparison": o.get("reached"),
@@ -195,9 +199,12 @@ def run_property(pid: str, level: str, tier: str, jobs: list, meta: dict) -> int
     }
     cov.update(meta.get("extra_coverage", {}))
     if level == "model_checking":
+        # a state = one explored schedule prefix (CrossHair path); a transition = one message
+        # post / delivery executed by the real executor under the simulated layer
         cov.setdefault("states", max(1, paths))
-        cov.setdefault("transitions", max(1, meta.get("transitions", paths)))
-        cov.setdefault("traces_validated_against_impl", meta.get("traces_validated", reached))
+        cov.setdefault("transitions", max(1, int(stats_sum.get("transitions", paths))))
+        cov.setdefault("traces_validated_against_impl", int(stats_sum.get("schedules", reached)))
+        cov["schedules_explored"] = int(stats_sum.get("schedules", reached))
     ev = {"property_id": pid, "tier": tier, "seed": env.SEED, "level": level, "coverage": cov,
           "assumptions": meta.get("assumptions", []) + ASSUME, "wall_s": round(wall, 2),
           "violations": len(violations)}
